@@ -191,10 +191,11 @@ func (x *Ctx) Prune(key string) {
 
 // Scenario is one exploration root.
 type Scenario struct {
-	Name  string
-	Bound int // deviation bound
-	Prune bool
-	Body  func(x *Ctx)
+	Name    string
+	Bound   int // deviation bound
+	Prune   bool
+	Flavour string // "" = plain build; "sched" = instrumented build under the scheduler; "race" = same with -race
+	Body    func(x *Ctx)
 }
 
 // Result is the merged outcome of exploring scenarios.
@@ -251,9 +252,15 @@ type Options struct {
 	WantSamples int
 }
 
+// OnExecStart, when set, runs before every execution (used to reset deterministic sources).
+var OnExecStart func()
+
 // Exec runs the body once with the given prefix (then defaults) and returns the context.
 func Exec(sc *Scenario, prefix []int, verbose bool, run *scenarioRun) (x *Ctx) {
 	x = &Ctx{prefix: prefix, h: fnvOff, ho: fnvOff, Verbose: verbose, sc: run}
+	if OnExecStart != nil {
+		OnExecStart()
+	}
 	defer func() {
 		if r := recover(); r != nil {
 			switch r.(type) {
